@@ -67,6 +67,10 @@ pub fn build_pass_2(
             // Data not writed anywhere
             SegmentType::Data => {}
         }
+
+        // Verification hook: see build_pass_1
+        #[cfg(avra_verif)]
+        std::mem::forget(segment);
     }
 
     Ok(BuildResultPass2 {
